@@ -24,9 +24,10 @@ import (
 )
 
 type MRow struct {
-	G int      `json:"g"`
-	T int64    `json:"t"`
-	C []*int64 `json:"c"`
+	G  int      `json:"g"`
+	T  int64    `json:"t"`
+	C  []*int64 `json:"c"`
+	In int      `json:"in,omitempty"` // sortappend: the input (= measurement) the row comes from
 }
 type MergeStream struct {
 	Kind    string   `json:"kind"`
@@ -94,7 +95,7 @@ func sortRows(rows []MRow, desc bool) {
 	})
 }
 
-func mergeChunks(s *MergeStream, rt hybridqp.RowDataType, rows []MRow, cut []int) []executor.Chunk {
+func mergeChunks(s *MergeStream, rt hybridqp.RowDataType, rows []MRow, cut []int, name string) []executor.Chunk {
 	b := executor.NewChunkBuilder(rt)
 	var chunks []executor.Chunk
 	pos := 0
@@ -108,7 +109,7 @@ func mergeChunks(s *MergeStream, rt hybridqp.RowDataType, rows []MRow, cut []int
 		}
 		part := rows[pos:end]
 		pos = end
-		ck := b.NewChunk("m")
+		ck := b.NewChunk(name)
 		var tags []executor.ChunkTags
 		var tagIdx, ivIdx []int
 		var times []int64
@@ -254,14 +255,29 @@ func runMerge(s *MergeStream, chunkSize int, cuts [][]int) (out []outChunk, err 
 		inRTs = append(inRTs, rt)
 	}
 	var trans *executor.MergeTransform
-	if s.Kind == "merge" {
+	switch s.Kind {
+	case "merge":
 		trans = executor.NewMergeTransform(inRTs, []hybridqp.RowDataType{rt}, nil, schema)
-	} else {
+	case "sortappend":
+		// one input per measurement (m0, m1, ..), identical columns: the reflection tables are the identity
+		trans = executor.NewSortAppendTransform(inRTs, []hybridqp.RowDataType{rt}, schema, []hybridqp.QueryNode{})
+		ident := make(executor.ReflectionTable, len(s.Cols))
+		for i := range ident {
+			ident[i] = i
+		}
+		for range s.Inputs {
+			trans.ReflectionTables = append(trans.ReflectionTables, ident)
+		}
+	default:
 		trans = executor.NewSortedMergeTransform(inRTs, []hybridqp.RowDataType{rt}, nil, schema)
 	}
 	ps := executor.Processors{}
 	for i, rows := range s.Inputs {
-		src := &source{out: executor.NewChunkPort(rt), chunks: mergeChunks(s, rt, rows, cuts[i])}
+		name := "m"
+		if s.Kind == "sortappend" {
+			name = fmt.Sprintf("m%d", i)
+		}
+		src := &source{out: executor.NewChunkPort(rt), chunks: mergeChunks(s, rt, rows, cuts[i], name)}
 		if e := executor.Connect(src.out, trans.Inputs[i]); e != nil {
 			return nil, e
 		}
@@ -367,6 +383,17 @@ func genMergeStream(r *gen.Rand, kind string) *MergeStream {
 				row.C[0] = &v
 			}
 			in := r.Range(0, k-1)
+			if kind == "sortappend" {
+				// rows of one measurement have distinct (group, time); the order between measurements is by name
+				row.In = in
+				dup := false
+				for _, o := range s.Inputs[in] {
+					dup = dup || (o.G == row.G && o.T == row.T)
+				}
+				if dup {
+					continue
+				}
+			}
 			s.Inputs[in] = append(s.Inputs[in], row)
 		}
 	}
@@ -378,6 +405,13 @@ func genMergeStream(r *gen.Rand, kind string) *MergeStream {
 		}
 	}
 	s.Inputs = keep
+	if kind == "sortappend" { // the measurement of a row is the input it ends up in
+		for k := range s.Inputs {
+			for j := range s.Inputs[k] {
+				s.Inputs[k][j].In = k
+			}
+		}
+	}
 	return s
 }
 
@@ -396,6 +430,19 @@ func runMergeCases(r *gen.Rand, n int, kind string) {
 		}
 		want := append([]MRow{}, all...)
 		sortRows(want, s.Desc)
+		if kind == "sortappend" {
+			// (group, time, measurement name), all three reversed in a descending statement
+			sort.SliceStable(want, func(i, j int) bool {
+				a, b := want[i], want[j]
+				if a.G != b.G {
+					return (a.G < b.G) != s.Desc
+				}
+				if a.T != b.T {
+					return (a.T < b.T) != s.Desc
+				}
+				return (a.In < b.In) != s.Desc
+			})
+		}
 		// cut combinations: all uncut; every single cut position of one input; all singletons; two random ones
 		uncutAll := make([][]int, len(s.Inputs))
 		for k, in := range s.Inputs {
@@ -444,6 +491,13 @@ func runMergeCases(r *gen.Rand, n int, kind string) {
 					c.Fail, c.Marks = checkMerge(s, out, all)
 				} else if !eqMRows(c.Got, want) {
 					c.Fail = append(c.Fail, "spec")
+				}
+				if kind == "sortappend" {
+					for i := range c.Got { // the sink does not see the measurement; take it from the expected sequence for the model
+						if i < len(want) {
+							c.Got[i].In = want[i].In
+						}
+					}
 				}
 				gen.Emit(map[string]any{"mergecase": c})
 			}
